@@ -118,7 +118,16 @@ func NextPartPos(pos token.Pos, part any) (nextPos token.Pos) {
 func (x *BasicLit) Pos() token.Pos { return x.ValuePos }
 
 // End returns position of first character immediately after the node.
-func (x *BasicLit) End() token.Pos { return token.Pos(int(x.ValuePos) + len(x.Value)) }
+func (x *BasicLit) End() token.Pos {
+	n := len(x.Value)
+	switch x.Kind { // Value omits the c / py prefix that ValuePos points at
+	case token.CSTRING:
+		n++
+	case token.PYSTRING:
+		n += 2
+	}
+	return token.Pos(int(x.ValuePos) + n)
+}
 
 func (*BasicLit) exprNode() {}
 
